@@ -24,7 +24,10 @@ CLAIMED = {
              "popint||popint, popint||push, popint||clear, popstr||popstr, getint||putint) checked for linearizability "
              "against ideal containers; hold scenarios on the real code (lock held across 1-3 waiter time-outs; nested "
              "locking calls by the holder while a second thread tries to get in; short contention followed by a third "
-             "thread): two locked walks identical, nobody gets in while the lock is held; thorough: TSan free-running stress.",
+             "thread): two locked walks identical, nobody gets in while the lock is held; copy-vs-free programs (copying "
+             "get/getat/getstr/find_nearest(newmem) against remove/pop/clear/replace of the SAME 300-byte element) "
+             "enumerated on the ASan build: a copy taken after the unlock is a sanitizer abort with the schedule as "
+             "replay; thorough: TSan free-running stress.",
         note="trusted: Lean kernel, the lock-skeleton translator + clang-14 AST (cross-checked by C14's trace validation), "
              "pthread mutual exclusion, that the C critical-section bodies behave like the sequential models (C01-C10), "
              "node-memory race freedom only sampled by TSan; getnext cursor steps are covered by lockedWalk_snapshot under the "
